@@ -28,7 +28,8 @@ from . import nm as NMG
 
 NAME = "auditrisk"
 RULE = ("elections of 4..5 cards (thorough: ..6), 1-2 plurality contests with 2-3 candidates, polling and card-comparison "
-        "audits, every shipped test with estimators/bets on dyadic parameter grids, risk limits 1/10..1/2; manual "
+        "audits (40% of the comparison audits style-based: one or two cards do not list a contest and are not used for it), "
+        "every shipped test with estimators/bets on dyadic parameter grids, risk limits 1/10..1/2; manual "
         "records agree with the CVRs, differ in a few cards, or elect someone else (a false assertion); every distinct "
         "order of the cards is audited draw by draw on the real objects; non-trivial = some order completes and some "
         "assertion is false or some order does not complete; distinct = distinct canonical input")
@@ -43,13 +44,18 @@ def full_case(case):
     c2 = copy.deepcopy(case)
     c2["stream"] = "real"
     c2["ops"] = []
-    c2["audit"] = {"error_rate_1": "0", "error_rate_2": "0", "use_style": False}
+    c2["audit"] = {"error_rate_1": "0", "error_rate_2": "0", "use_style": bool(case.get("use_style"))}
     for c in c2["contests"]:
         c.setdefault("choice_function", "PLURALITY")
         c.setdefault("assertion_file", None)
         c["order"] = []
         c["init_proved"] = []
         c["audit_type"] = case["audit_type"]
+        if case.get("use_style"):
+            # every drawn card meets the contest's threshold (sample numbers are the card indices)
+            c["sample_threshold"] = len(case["cvrs"])
+            # the contest's card count = the number of cards whose CVR lists it
+            c["cards"] = sum(1 for cv in case["cvrs"] if c["id"] in cv["votes"])
     return c2
 
 
@@ -89,15 +95,21 @@ def init_from_nm(nm, u_now):
 
 
 def describe(case):
-    """per contest / assertion: name, data value of every card, test configuration (from the real objects)"""
+    """per contest / assertion: name, data value of every card (None: the card is not used for the assertion --
+    style-based comparison audits use only the cards whose CVR lists the contest), test configuration; all taken
+    from the real objects"""
     audit, contests, cvrs, mvrs = ST.build(full_case(case))
     comparison = case["audit_type"] != "POLLING"
     out = []
     for cid, con in contests.items():
         asns = []
         for name, asn in con.assertions.items():
-            d, u = asn.mvrs_to_data(mvrs, cvrs if comparison else None)
-            asns.append({"name": name, "vals": [fr(v) for v in d], "init": init_from_nm(asn.test, u)})
+            vals, u = [], None
+            for i in range(len(mvrs)):
+                d, u = asn.mvrs_to_data([mvrs[i]], [cvrs[i]] if comparison else None)
+                assert len(d) in (0, 1)
+                vals.append(fr(d[0]) if len(d) else None)
+            asns.append({"name": name, "vals": vals, "init": init_from_nm(asn.test, u)})
         out.append({"id": cid, "limit": fr(con.risk_limit), "assertions": asns})
     return out
 
@@ -113,8 +125,11 @@ def impl(case):
     tables = []
     for con in contests.values():
         for asn in con.assertions.values():
-            d, _u = asn.mvrs_to_data(mvrs, cvrs if comparison else None)
-            tables.append(([float(v) for v in d], float(asn.test.N) * float(asn.test.t)))
+            vals = []
+            for i in range(n):
+                d, _u = asn.mvrs_to_data([mvrs[i]], [cvrs[i]] if comparison else None)
+                vals.append(float(d[0]) if len(d) else None)
+            tables.append((vals, float(asn.test.N) * float(asn.test.t)))
     for order in orders_of(case):
         first = None
         # inexact data (comparison audits): the float running total and the exact total of the same doubles can fall
@@ -122,6 +137,8 @@ def impl(case):
         for vals, nt in tables:
             sf, sx = 0.0, F(0)
             for i in order:
+                if vals[i] is None:
+                    continue
                 sf += vals[i]
                 sx += F(vals[i])
                 if (sf < nt) != (sx < F(nt)) or (sf == nt) != (sx == F(nt)):
@@ -204,8 +221,9 @@ def false_assertions(case, desc=None):
     out = []
     for con in desc:
         for a in con["assertions"]:
-            vals = [F(v) for v in a["vals"]]
-            if vals and sum(vals) <= F(len(vals), 2):
+            vals = [F(v) for v in a["vals"] if v is not None]
+            # false on the cards the assertion uses, and the test's N is the number of those cards
+            if vals and sum(vals) <= F(len(vals), 2) and a["init"]["N"] == len(vals):
                 out.append((con["id"], a["name"], F(con["limit"]), a["init"]))
     return out
 
@@ -321,8 +339,21 @@ def gen_case(rng, tier):
         contests.append({"id": cid, "risk_limit": rng.choice(["1/10", "1/5", "3/10", "1/2", "1/4"]),
                          "candidates": cands, "winner": [w], "n_winners": 1, "test": test, "estim": estim, "bet": bet,
                          "test_kwargs": kw})
-    return {"audit_type": "CARD_COMPARISON" if comparison else "POLLING", "contests": contests,
+    case = {"audit_type": "CARD_COMPARISON" if comparison else "POLLING", "contests": contests,
             "cvrs": [mk_card(i, v) for i, v in enumerate(cvrs)], "mvrs": [mk_card(i, v) for i, v in enumerate(mvrs)]}
+    if comparison and rng.chance(0.4):
+        # style-based: one or two cards do not list some contest (the manual record may still show it, or not)
+        case["use_style"] = True
+        for _ in range(rng.randint(1, 2)):
+            i = rng.randint(0, n - 1)
+            cid = rng.choice([c["id"] for c in contests])
+            listing = [j for j in range(n) if cid in case["cvrs"][j]["votes"]]
+            if len(listing) <= 3:
+                continue
+            case["cvrs"][i]["votes"].pop(cid, None)
+            if rng.chance(0.7):
+                case["mvrs"][i]["votes"].pop(cid, None)
+    return case
 
 
 def corpus():
